@@ -27,3 +27,109 @@ Proof.
   - cbn [steps fold_left]. apply IH.
   - cbn [steps fold_left]. rewrite (step_disabled _ _ E). apply IH.
 Qed.
+
+(* ------------------------------------------------------------------ generic list facts *)
+Lemma upd_split : forall {A} (l1 : list A) x y l2, upd (length l1) y (l1 ++ x :: l2) = l1 ++ y :: l2.
+Proof. induction l1 as [|a l1 IH]; intros; cbn; [reflexivity|]. now rewrite IH. Qed.
+
+Lemma nth_error_split' : forall {A} (l : list A) n a, nth_error l n = Some a ->
+  exists l1 l2, l = l1 ++ a :: l2 /\ length l1 = n.
+Proof. intros. apply nth_error_split. assumption. Qed.
+
+Lemma nth_error_mid : forall {A} (l1 : list A) x l2, nth_error (l1 ++ x :: l2) (length l1) = Some x.
+Proof. induction l1; cbn; auto. Qed.
+
+Lemma nth_error_mid_ne : forall {A} (l1 : list A) x y l2 n, n <> length l1 ->
+  nth_error (l1 ++ x :: l2) n = nth_error (l1 ++ y :: l2) n.
+Proof.
+  induction l1 as [|a l1 IH]; intros x y l2 n Hn; destruct n; cbn in *; try congruence; auto.
+Qed.
+
+(* ------------------------------------------------------------------ a step, opened up *)
+Lemma step_cases : forall t st,
+  step t st = st \/
+  exists l1 th l2 th' h', c_thr st = l1 ++ th :: l2 /\ length l1 = t /\
+    tstep t th (c_sh st) = Some (th', h') /\ step t st = {| c_thr := l1 ++ th' :: l2; c_sh := h' |}.
+Proof.
+  intros t st. unfold step.
+  destruct (nth_error (c_thr st) t) as [th|] eqn:E; [|now left].
+  destruct (tstep t th (c_sh st)) as [[th' h']|] eqn:T; [|now left].
+  right. destruct (nth_error_split' _ _ _ E) as (l1 & l2 & Hl & Hn).
+  exists l1, th, l2, th', h'. repeat split; auto.
+  rewrite Hl, <- Hn, upd_split. reflexivity.
+Qed.
+
+Lemma steps_inv : forall (P : cstate -> Prop),
+  (forall t st, P st -> P (step t st)) -> forall sch st, P st -> P (steps sch st).
+Proof.
+  intros P HP. induction sch as [|t r IH]; intros st H; [exact H|].
+  cbn [steps fold_left]. apply IH, HP, H.
+Qed.
+
+(* open a [tstep ... = Some ...] hypothesis into one goal per program point *)
+Ltac open_match H :=
+  repeat match type of H with
+         | context [match ?x with _ => _ end] =>
+           match x with
+           | context [match _ with _ => _ end] => fail 1
+           | _ => destruct x eqn:?
+           end
+         end.
+
+Ltac inv_tstep H :=
+  unfold tstep in H; cbn [t_pc t_prog] in H;
+  unfold start, cont, enq, estep, close_empty in H;
+  open_match H; try discriminate H;
+  inversion H; subst; clear H.
+
+(* ------------------------------------------------------------------ counting occurrences *)
+Definition cnt (l : list nat) (x : nat) : nat := count_occ Nat.eq_dec l x.
+Definition one (a x : nat) : nat := if Nat.eq_dec a x then 1 else 0.
+Definition sidof (x : nat * entry) : nat := e_sid (snd x).
+
+Lemma cnt_nil : forall x, cnt [] x = 0. Proof. reflexivity. Qed.
+Lemma cnt_cons : forall a l x, cnt (a :: l) x = one a x + cnt l x.
+Proof. intros; unfold cnt, one; cbn. destruct (Nat.eq_dec a x); lia. Qed.
+Lemma cnt_app : forall l1 l2 x, cnt (l1 ++ l2) x = cnt l1 x + cnt l2 x.
+Proof. intros; unfold cnt; apply count_occ_app. Qed.
+Lemma cnt_perm : forall l1 l2, (forall x, cnt l1 x = cnt l2 x) <-> Permutation l1 l2.
+Proof. intros; unfold cnt; symmetry; apply (Permutation_count_occ Nat.eq_dec). Qed.
+Lemma cnt_in : forall l x, In x l <-> cnt l x > 0.
+Proof. intros; unfold cnt; apply count_occ_In. Qed.
+Lemma cnt_flat_map_app : forall {A} (f : A -> list nat) l1 l2 x,
+  cnt (flat_map f (l1 ++ l2)) x = cnt (flat_map f l1) x + cnt (flat_map f l2) x.
+Proof. intros; rewrite flat_map_app; apply cnt_app. Qed.
+
+#[global] Hint Rewrite cnt_nil cnt_cons cnt_app map_app : cntdb.
+
+Lemma pop_min_cnt : forall q l e l', pop_min q l = Some (e, l') ->
+  forall x, cnt (map sidof l) x = one (e_sid e) x + cnt (map sidof l') x.
+Proof.
+  induction l as [|[q' e'] r IH]; intros e l' H x; cbn [pop_min] in H; [discriminate|].
+  destruct (q' =? q) eqn:Eq.
+  - destruct (pop_min q r) as [[m r']|] eqn:Er.
+    + destruct (entry_le e' m); inversion H; subst; clear H; cbn [map]; autorewrite with cntdb.
+      * reflexivity.
+      * rewrite (IH _ _ eq_refl x). unfold sidof at 1 3; cbn [snd]. lia.
+    + inversion H; subst. cbn [map]; autorewrite with cntdb. reflexivity.
+  - destruct (pop_min q r) as [[m r']|] eqn:Er; [|discriminate].
+    inversion H; subst; clear H. cbn [map]; autorewrite with cntdb.
+    rewrite (IH _ _ eq_refl x). unfold sidof at 1 3; cbn [snd]. lia.
+Qed.
+
+(* ------------------------------------------------------------------ C19_conservation *)
+Definition sh_places (h : shared) : list nat := map sidof (h_pend h) ++ h_disp h ++ h_drop h.
+
+Lemma tstep_places : forall t th h th' h', tstep t th h = Some (th', h') ->
+  forall x, cnt (thr_unput th ++ thr_held th ++ sh_places h) x
+          = cnt (thr_unput th' ++ thr_held th' ++ sh_places h') x.
+Proof.
+  intros t [prog p] h th' h' H x.
+  inv_tstep H.
+  all: unfold thr_unput, thr_held, sh_places, dispatched, lbl, mk;
+       cbn [t_pc t_prog pc_unput pc_held prog_sids flat_map act_sids app
+            h_pend h_disp h_drop set];
+       autorewrite with cntdb; cbn [map sidof snd e_sid]; autorewrite with cntdb.
+  all: try lia.
+  all: try (match goal with Hp : pop_min _ _ = Some _ |- _ => rewrite (pop_min_cnt _ _ _ _ Hp x) end; lia).
+Qed.
